@@ -1,10 +1,11 @@
 (* Props/C06.v — sparse results are well-formed and independent of the stored order of the nonzeros.
    Only statements, `exact`, Print Assumptions.  V: any value type with decidable zero; operands: arbitrary
    well-formed coordinate lists; "stored order" = any Permutation of the entry list. *)
-From Coq Require Import List Arith Bool ZArith Permutation.
-From PV Require Import Base.Index Base.Perm Np.NpZ Np.Array Model.Sparse Model.Harness Model.C03Ops Model.C03Gen Model.C06Ops
-                       Model.C07Ops Model.C01Conv Model.C04Model
-                       Proofs.C03Lemmas Proofs.C03Proofs Proofs.C03GenProofs Proofs.C06Proofs Proofs.C06Other.
+From Coq Require Import List Arith Bool ZArith Permutation Ring.
+From PV Require Import Base.Index Base.Perm Np.NpZ Np.Array Model.Sparse Model.Repr Model.Harness Model.C03Ops Model.C03Gen Model.C06Ops
+                       Model.C07Ops Model.C01Conv Model.C04Model Model.C06Stm
+                       Model.C02Spec Model.C02Sparse Model.C02SpKernels Model.C02SpMore
+                       Proofs.C03Lemmas Proofs.C03Proofs Proofs.C03GenProofs Proofs.C06Proofs Proofs.C06Other Proofs.C06Stm Proofs.C06Squash Proofs.C06Kernels.
 Import ListNotations.
 
 Section C06.
@@ -66,6 +67,12 @@ Theorem C06_ops_reshape : forall (S S' : sparse V) s', wf S -> wf S' -> sshape S
   exists R R', reshape_sp_all S s' = Some R /\ reshape_sp_all S' s' = Some R' /\ same_result v0 isz R R'.
 Proof. exact (indep_reshape v0 isz isz_spec). Qed.
 
+Theorem C06_ops_reshape_modes : forall (S S' : sparse V) s' old, wf S -> wf S' -> sshape S' = sshape S ->
+  Permutation (entries S) (entries S') ->
+  Forall (fun k => k < length (sshape S)) old -> size s' = size (pick 0 old (sshape S)) ->
+  exists R R', reshape_sp S s' old = Some R /\ reshape_sp S' s' old = Some R' /\ same_result v0 isz R R'.
+Proof. exact (indep_reshape_modes v0 isz). Qed.
+
 Theorem C06_ops_squeeze : forall (S S' : sparse V), wf S -> wf S' -> sshape S' = sshape S ->
   Permutation (entries S) (entries S') ->
   match squeeze_sp v0 S, squeeze_sp v0 S' with
@@ -88,6 +95,35 @@ Theorem C06_ops_setitem : forall (S S' : sparse V) (o : op V) S1 out S1' out', w
   step_sparse v0 isz S o = Some (S1, out) -> step_sparse v0 isz S' o = Some (S1', out') ->
   same_result v0 isz S1 S1' /\ out = out'.
 Proof. exact (indep_step v0 isz isz_spec). Qed.
+
+(* sptenmat.__setitem__ (transliteration impl_stm_setitem of pyttb/sptenmat.py on the 2-way coordinate list behind the sptenmat;
+   t = the (subscript, value) targets in pyttb's loop order, pairwise distinct, values may be zero): the result is well-formed
+   (no explicit zero also when a zero lands on a stored entry and nothing is appended), keeps the shape, denotes the assigned
+   array, and is the same for every stored order of the receiver *)
+Theorem C06_stm_setitem : forall (S : sparse V) (t : list (idx * V)), wf S ->
+  NoDup (map fst t) -> Forall (fun j => inb (sshape S) j = true) (map fst t) ->
+  let R := impl_stm_setitem isz S t in
+  wf R /\ sshape R = sshape S /\ forall i, den R i = assign_den (den S) t i.
+Proof. exact (impl_stm_setitem_correct v0 isz isz_spec). Qed.
+
+Theorem C06_ops_stm_setitem : forall (S S' : sparse V) (t : list (idx * V)), wf S -> wf S' -> sshape S' = sshape S ->
+  Permutation (entries S) (entries S') ->
+  NoDup (map fst t) -> Forall (fun j => inb (sshape S) j = true) (map fst t) ->
+  same_result v0 isz (impl_stm_setitem isz S t) (impl_stm_setitem isz S' t).
+Proof. exact (indep_stm_setitem v0 isz isz_spec). Qed.
+
+(* squash ("remove empty slices": every mode renumbered by the rank of each index among the distinct indices used in that mode):
+   well-formed, same stored values, extent of mode n = number of distinct indices used in mode n, and the same result for
+   every stored order.  (pyttb's squash gives every mode the extent nnz instead — open finding A-27; subscripts and values of
+   pyttb's result are compared with this model in the correspondence.) *)
+Theorem C06_squash : forall S : sparse V, wf S ->
+  wf (squash S) /\ nnz (squash S) = nnz S /\ svals (squash S) = svals S /\
+  sshape (squash S) = map (fun n => length (uniq_nat (column n (ssubs S)))) (seq 0 (length (sshape S))).
+Proof. exact (squash_wf isz). Qed.
+
+Theorem C06_ops_squash : forall S S' : sparse V, wf S -> wf S' -> sshape S' = sshape S ->
+  Permutation (entries S) (entries S') -> same_result v0 isz (squash S) (squash S').
+Proof. exact (indep_squash v0 isz). Qed.
 
 (* instances: the modelled operators (result well-formed + same result for every stored order of each operand) *)
 Variables (one : V) (vadd vmul : V -> V -> V) (vopp : V -> V).
@@ -140,6 +176,91 @@ Proof.
 Qed.
 End C06.
 
+(* ---- the multilinear kernels of a sparse tensor (models and denotational theorems: C02): values in any commutative ring with
+        decidable zero.  `reordered isz S S'` = S and S' are well-formed, have the same shape and store the same entries in
+        some order.  ttv / ttm / collapse / contract: the C02 models give the value of the result at a subscript, so the
+        statement is "the same value (the defining sum over the denoted array) at every subscript for every stored order";
+        scale returns a coordinate list and is also well-formed; mask returns the values in the order of the mask's rows. ---- *)
+Section C06K.
+Variable V : Type.
+Variables (v0 v1 : V) (vadd vmul vsub : V -> V -> V) (vopp : V -> V).
+Hypothesis Vring : ring_theory v0 v1 vadd vmul vsub vopp (@eq V).
+Variable isz : V -> bool.
+Hypothesis isz_spec : forall v, isz v = true <-> v = v0.
+Notation den := (den_sp v0).
+Notation wf := (wf_sp isz).
+Notation reord := (reordered V isz).
+
+Theorem C06_reordered_def : forall S S' : sparse V,
+  reord S S' <-> (wf S /\ wf S' /\ sshape S' = sshape S /\ Permutation (entries S) (entries S')).
+Proof. exact (fun S S' => iff_refl _). Qed.
+
+Theorem C06_ops_ttv : forall (S S' : sparse V) dims vs i', reord S S' ->
+  NoDup dims -> (forall x, In x dims -> x < length (sshape S)) -> length vs = length dims ->
+  inb (ttv_shape (sshape S) dims) i' = true ->
+  impl_ttv_sp v0 v1 vadd vmul S dims vs i' = impl_ttv_sp v0 v1 vadd vmul S' dims vs i' /\
+  impl_ttv_sp v0 v1 vadd vmul S dims vs i' = spec_ttv v0 vadd vmul (den S) (sshape S) dims vs i'.
+Proof. exact (indep_ttv V v0 v1 vadd vmul vsub vopp Vring isz). Qed.
+
+Theorem C06_ops_ttm : forall (S S' : sparse V) n U tr i, reord S S' ->
+  n < length (sshape S) -> length i = length (sshape S) ->
+  inb (remove_at n (sshape S)) (remove_at n i) = true ->
+  impl_ttm_sp v0 vadd vmul S n U tr i = impl_ttm_sp v0 vadd vmul S' n U tr i /\
+  impl_ttm_sp v0 vadd vmul S n U tr i = spec_ttm v0 vadd vmul (den S) (sshape S) n U tr i.
+Proof. exact (indep_ttm V v0 v1 vadd vmul vsub vopp Vring isz). Qed.
+
+Theorem C06_ops_collapse : forall (S S' : sparse V) dims i', reord S S' ->
+  NoDup dims -> (forall x, In x dims -> x < length (sshape S)) ->
+  inb (ttv_shape (sshape S) dims) i' = true ->
+  impl_collapse_sp v0 vadd S dims i' = impl_collapse_sp v0 vadd S' dims i' /\
+  impl_collapse_sp v0 vadd S dims i' = spec_collapse v0 vadd (den S) (sshape S) dims i'.
+Proof. exact (indep_collapse V v0 v1 vadd vmul vsub vopp Vring isz). Qed.
+
+Theorem C06_ops_contract : forall (S S' : sparse V) i1 i2 i', reord S S' ->
+  i1 <> i2 -> i1 < length (sshape S) -> i2 < length (sshape S) ->
+  nth i1 (sshape S) 0 = nth i2 (sshape S) 0 ->
+  inb (ttv_shape (sshape S) [i1; i2]) i' = true ->
+  impl_contract_sp v0 vadd S i1 i2 i' = impl_contract_sp v0 vadd S' i1 i2 i' /\
+  impl_contract_sp v0 vadd S i1 i2 i' = spec_contract v0 vadd (den S) (sshape S) i1 i2 i'.
+Proof. exact (indep_contract V v0 v1 vadd vmul vsub vopp Vring isz). Qed.
+
+Theorem C06_ops_scale : forall (S S' : sparse V) dims (g : idx -> V), reord S S' ->
+  same_result v0 isz (impl_scale_sp vmul isz S dims g) (impl_scale_sp vmul isz S' dims g).
+Proof. exact (indep_scale V v0 v1 vadd vmul vsub vopp Vring isz isz_spec). Qed.
+
+Theorem C06_ops_mask : forall (S S' : sparse V) wsubs, reord S S' ->
+  impl_mask_sp v0 S wsubs = impl_mask_sp v0 S' wsubs /\ impl_mask_sp v0 S wsubs = map (den S) wsubs.
+Proof. exact (indep_mask V v0 isz). Qed.
+
+Theorem C06_ops_innerprod :
+  (forall (S S' : sparse V) (T : dense V), reord S S' ->
+     impl_innerprod_sp_dense v0 vadd vmul S T = impl_innerprod_sp_dense v0 vadd vmul S' T) /\
+  (forall A A' B B' : sparse V, reord A A' -> reord B B' -> sshape A = sshape B ->
+     impl_innerprod_sp_sp v0 vadd vmul A B = impl_innerprod_sp_sp v0 vadd vmul A' B').
+Proof.
+  exact (conj (indep_innerprod_dense V v0 v1 vadd vmul vsub vopp Vring isz)
+              (indep_innerprod_sparse V v0 v1 vadd vmul vsub vopp Vring isz)).
+Qed.
+
+Theorem C06_ops_normsq : forall S S' : sparse V, reord S S' ->
+  impl_normsq_sp v0 vadd vmul S = impl_normsq_sp v0 vadd vmul S'.
+Proof. exact (indep_normsq V v0 v1 vadd vmul vsub vopp Vring isz). Qed.
+End C06K.
+
+Print Assumptions C06_ops_reshape_modes.
+Print Assumptions C06_squash.
+Print Assumptions C06_ops_squash.
+Print Assumptions C06_stm_setitem.
+Print Assumptions C06_ops_stm_setitem.
+Print Assumptions C06_reordered_def.
+Print Assumptions C06_ops_ttv.
+Print Assumptions C06_ops_ttm.
+Print Assumptions C06_ops_collapse.
+Print Assumptions C06_ops_contract.
+Print Assumptions C06_ops_scale.
+Print Assumptions C06_ops_mask.
+Print Assumptions C06_ops_innerprod.
+Print Assumptions C06_ops_normsq.
 Print Assumptions C06_canon_unique.
 Print Assumptions C06_den_perm.
 Print Assumptions C06_canon.
@@ -167,4 +288,24 @@ Example C06_example :
   canon 0 zisz (impl_add 0 zisz Z.add c6A c6B) = canon 0 zisz (impl_add 0 zisz Z.add c6A' c6B) /\
   canon 0 zisz (impl_cmp 0 1 Z.leb c6A c6B) = canon 0 zisz (impl_cmp 0 1 Z.leb c6A' c6B) /\
   squash c6B = mkSp [2; 2]%nat [[1; 0]; [0; 0]; [1; 1]]%nat [5; 4; -2].
+Proof. repeat split; reflexivity. Qed.
+
+(* sptenmat.__setitem__: a zero written onto the stored entry [1;2] (nothing appended) removes it; a mixed call (zero onto
+   stored [0;1], 8 onto absent [0;0]) appends, sorts by (row, column) and drops the zero; both stored orders agree *)
+Definition c6M : sparse Z := mkSp [2; 3]%nat [[1; 2]; [0; 1]; [1; 0]]%nat [9; -7; 5].
+Definition c6M' : sparse Z := mkSp [2; 3]%nat [[1; 0]; [1; 2]; [0; 1]]%nat [5; 9; -7].
+Example C06_stm_example :
+  impl_stm_setitem zisz c6M [([1; 2]%nat, 0)] = mkSp [2; 3]%nat [[0; 1]; [1; 0]]%nat [-7; 5] /\
+  impl_stm_setitem zisz c6M [([0; 1]%nat, 0); ([0; 0]%nat, 8)] = mkSp [2; 3]%nat [[0; 0]; [1; 0]; [1; 2]]%nat [8; 5; 9] /\
+  canon 0 zisz (impl_stm_setitem zisz c6M [([1; 2]%nat, 0)]) = canon 0 zisz (impl_stm_setitem zisz c6M' [([1; 2]%nat, 0)]).
+Proof. repeat split; reflexivity. Qed.
+
+(* kernels: ttv in mode 1 with the vector (1, 2, 3) and scale by a factor that vanishes at a stored position, both stored orders *)
+Example C06_kernel_example :
+  map (impl_ttv_sp 0 1 Z.add Z.mul c6A [1%nat] [[1; 2; 3]]) [[0%nat]; [1%nat]] = [-14; 32] /\
+  map (impl_ttv_sp 0 1 Z.add Z.mul c6A' [1%nat] [[1; 2; 3]]) [[0%nat]; [1%nat]] = [-14; 32] /\
+  canon 0 zisz (impl_scale_sp Z.mul zisz c6A [1%nat] (fun j => nth (nth 0 j 0%nat) [2; 0; 3] 0)) =
+    mkSp [2; 3]%nat [[1; 0]; [1; 2]]%nat [10; 27] /\
+  canon 0 zisz (impl_scale_sp Z.mul zisz c6A' [1%nat] (fun j => nth (nth 0 j 0%nat) [2; 0; 3] 0)) =
+    mkSp [2; 3]%nat [[1; 0]; [1; 2]]%nat [10; 27].
 Proof. repeat split; reflexivity. Qed.
